@@ -46,6 +46,24 @@ CLAIMED = {
              "trio/lifespan.py, the lifespan part of both run.py.",
         technique="Coq proof (induction over application scripts) + in-Coq differential correspondence on both real Lifespan helpers + socket-level oracle on both real workers",
     ),
+    "C15": dict(
+        text="Coq theorems about the timing skeleton of worker_serve's shutdown sequence (one model for both workers): serve() returns "
+             "within graceful_timeout + shutdown_timeout however many connections are stuck and for however long; a request that "
+             "ends within the grace period is not cut short and shutdown waits for it; idle connections do not delay it.  Tied to "
+             "the code by comparing the model's return instant with the measured one, and the property itself is checked on the "
+             "real worker_serve of both workers over loopback sockets: shutdown triggered with connections that are idle, hold a "
+             "partial head, run requests shorter / far longer than the grace period (up to five at once), an open HTTP/2 stream plus "
+             "a new stream after the trigger, the worker's max_requests as the trigger; what each client sees, refused connections, "
+             "lifespan.shutdown.",
+        design="7/C15",
+        note="Trusted: Coq kernel + vm_compute, harness (c15.py, c14.py Served). The model is deliberately small (arithmetic over handler "
+             "durations); everything about which connections are closed, refused or completed is established by the socket-level "
+             "oracle with real time and a slack of 0.25 s (sampling): partial.  asyncio / trio cancellation semantics are the "
+             "runtimes'.  F16 (asyncio ignored graceful_timeout on CPython 3.12) fixed in 82d1bf3, F45 (END_STREAM lost under "
+             "shutdown on trio) fixed in 83db352.  F9 (HTTP/2 keep_alive_max_requests drops in-flight responses) stays open under C02/C18.  "
+             "Modelled not verified: the shutdown part of asyncio/run.py and trio/run.py.",
+        technique="Coq proof (arithmetic lemmas over a timing model) + correspondence of the return instant + socket-level oracle on both real workers",
+    ),
     "C16": dict(
         text="Coq theorems: the two EventWrapper implementations (asyncio clears its event in place, trio replaces the event object) wake "
              "the same tasks at the same operations for every operation sequence that respects the discipline by which hypercorn uses "
